@@ -304,7 +304,8 @@ impl Factors {
                     factors,
                     "Recursos ahorrados a la red por la energía producida in situ y exportada a usos no EPB",
                 );
-            } else {
+            } else if wf_carriers.contains(c) {
+                // (un conjunto sin factores para el vector es válido para edificios que no lo usen)
                 return Err(EpbdError::MissingFactor(format!("{}, SUMINISTRO, A", c)));
             }
         }
